@@ -60,9 +60,9 @@ Proof.
 Qed.
 
 (* ---- non-vacuity: concrete, non-trivial instances of the hypotheses ---- *)
-Definition ex_prog : prog := gen 7 6.
+Definition ex_prog : prog := gen 11 6.
 
-Example ex_not_fallback : fst (gen_with_tries 7 6) = 0%nat.
+Example ex_not_fallback : fst (gen_with_tries 11 6) = 0%nat.
 Proof. vm_compute. reflexivity. Qed.
 
 Example ex_typed : typecheck ex_prog = true.
